@@ -22,6 +22,12 @@ import (
 func TestMain(m *testing.M) { stat.Main(m) }
 
 func dst(t *rapid.T) []byte {
+	if rapid.IntRange(0, 5).Draw(t, "dst-dict") == 0 {
+		// tags built from the program's own string constants (reserved prefixes, suite names, ...)
+		if b := gen.DictBytes(t, 40, "dstdict"); len(b) > 0 {
+			return b
+		}
+	}
 	n := gen.Sampled([]int{1, 2, 16, 43, 254, 255, 256, 257, 300, 1000}).Draw(t, "dstlen")
 	if rapid.IntRange(0, 3).Draw(t, "dstany") == 0 {
 		n = rapid.IntRange(1, 600).Draw(t, "dstlen2")
